@@ -83,7 +83,9 @@ const (
 	rErr
 )
 
-func (r resKind) String() string { return [...]string{"ok", "exists", "not-found", "out-of-scope", "error"}[r] }
+func (r resKind) String() string {
+	return [...]string{"ok", "exists", "not-found", "out-of-scope", "error"}[r]
+}
 
 const (
 	scopeAny      = 0
